@@ -15,7 +15,7 @@ for i, a in enumerate(sys.argv):
 dst = os.path.join(VERIF, "seeded", name)
 os.makedirs(dst, exist_ok=True)
 for f in os.listdir(src):
-    if os.path.isfile(os.path.join(src, f)):
+    if os.path.isfile(os.path.join(src, f)) and os.path.realpath(src) != os.path.realpath(dst):
         shutil.copy(os.path.join(src, f), os.path.join(dst, f))
 meta = json.load(open(os.path.join(dst, "meta.json")))
 props = props or [meta.get("property", name.split("-")[0])]
